@@ -4,6 +4,7 @@
   stdin and the working directory are OS effects observed end-to-end).
 -/
 import NextestModel.Model.Command
+import NextestModel.Lemmas.Shell
 namespace NextestModel.C15
 open NextestModel.Command
 
@@ -44,7 +45,7 @@ theorem nextest_vars_win (inherited cargoEnv buildScriptEnv : Writes) (profile m
     (hpkg : lookup pkgVars k = none) (hpt : lookup perTest k = none) (hse : lookup scriptEnv k = none) :
     lookup (testEnv inherited cargoEnv buildScriptEnv profile manifestDir pkgVars runId attempt perTest scriptEnv) k =
       some (nextestValue profile manifestDir runId k) := by
-  unfold testEnv
+  unfold testEnv commandEnv
   rw [lookup_append_left_of_none _ _ _ hse, lookup_append_left_of_none _ _ _ hpt]
   simp only [List.mem_cons, List.mem_nil_iff, or_false] at hk
   rcases hk with rfl | rfl | rfl | rfl | rfl
@@ -66,5 +67,34 @@ theorem run_id_constant (i1 c1 b1 i2 c2 b2 : Writes) (p1 m1 p2 m2 : String) (pk1
   rw [nextest_vars_win i1 c1 b1 p1 m1 pk1 runId a1 [] [] "NEXTEST_RUN_ID" (by simp) h1 rfl rfl,
       nextest_vars_win i2 c2 b2 p2 m2 pk2 runId a2 [] [] "NEXTEST_RUN_ID" (by simp) h2 rfl rfl]
   simp [nextestValue]
+
+/-- **`shell_words::split ∘ shell_words::join = id`** for every list of words over every Unicode scalar value
+    (empty words, blanks, both quotes, backslashes, `$`, `#`, newlines, …): by induction over the word list, with
+    one lemma per quoting style of `quote` against `split`'s eight-state machine. -/
+theorem shell_roundtrip (ws : List (List Char)) : Shell.split (Shell.join ws) = some ws := by
+  rw [Shell.join_eq_spec]
+  cases ws with
+  | nil => simp [Shell.joinSpec, Shell.split, Shell.splitGo]
+  | cons w ws => simpa [Shell.split] using Shell.go_joinSpec w ws []
+
+/-- **the double-spawn launcher is transparent**: whatever the program path and the arguments (hence for any
+    test name whatsoever), the process that finally runs has argv `program :: args` — the same as without
+    the launcher -/
+theorem double_spawn_transparent (exe : Option (List Char)) (program : List Char) (args : List (List Char)) :
+    finalArgv exe program args = some (program :: args) := by
+  cases exe with
+  | none => simp [finalArgv, createCommand]
+  | some e => simp [finalArgv, createCommand, doubleSpawnExec, shell_roundtrip]
+
+/-- `quote` never produces an unterminated quote: `split` of any `join` is not a parse error, so
+    `DoubleSpawnParseArgsError` is unreachable from `create_command` -/
+theorem double_spawn_never_parse_error (ws : List (List Char)) : Shell.split (Shell.join ws) ≠ none := by
+  rw [shell_roundtrip]; simp
+
+-- non-vacuity: a hostile test name goes through the launcher unchanged
+example : finalArgv (some "cargo-nextest".toList) "/t/bin".toList
+    ["--exact".toList, "it's a \"test\" $x\n#y".toList, "--nocapture".toList, [], "'".toList] =
+    some ["/t/bin".toList, "--exact".toList, "it's a \"test\" $x\n#y".toList, "--nocapture".toList, [], "'".toList] := by
+  decide
 
 end NextestModel.C15
